@@ -88,14 +88,14 @@ def main():
         "coverage": {
             "evaluations": evaluations,
             "distinct_nontrivial": int(ix.get("sequences", 0)) + len(k.get("isas", [])) * (int(k.get("max_len", 0)) + 1) * 4,
-            "rule": "kernels: every available ISA (scalar, SSE2, AVX2+FMA, AVX-512F where the CPU has it, plus the runtime-dispatched entry points) x {dot, sum_squares, l2_sq, dot_and_norms} x length 0..max_len x start offset 0..3 on exact-size heap buffers, compared with the scalar kernel; index: every operation sequence of the depth bound over {add, add duplicate vector, add duplicate id, search, search with k=ef=10000, pre-cancelled search} x dim x M x capacity x metric on HnswVectorIndex; every row-length pattern of <= 3 rows over {dim, dim-1, dim+1, 0} (and a NaN row) through parallel_insert_batch on an empty and a non-empty index followed by well-formed searches; plus HnswBackend runs with overwrites, deletes, forced tombstone compaction, batch search and free-running concurrent readers; everything compiled with -Zsanitizer=address and debug assertions (std ub_checks); distinct_nontrivial = index sequences + (ISA x length x offset) kernel points",
+            "rule": "kernels: every available ISA (scalar, SSE2, AVX2+FMA, AVX-512F where the CPU has it, plus the runtime-dispatched entry points) x {dot, sum_squares, l2_sq, dot_and_norms} x length 0..max_len x start offset 0..3 on exact-size heap buffers, compared with the scalar kernel; index: every operation sequence of the depth bound over {add, add duplicate vector, add duplicate id, search, search with k=ef=10000, pre-cancelled search} x dim x M x capacity x metric on HnswVectorIndex; every row-length pattern of <= 3 rows over {dim, dim-1, dim+1, 0} (and a NaN row) through parallel_insert_batch on an empty and a non-empty index followed by well-formed searches; cancellation at EVERY cancellation point of every search of a (dim, metric, size, k/ef) grid, enumerated with the --cfg kyrodb_verif hook (the n-th cancellation check raises the caller's flag), each cancelled search followed by two uncancelled repeats; plus HnswBackend runs with overwrites, deletes, forced tombstone compaction, batch search and free-running concurrent readers; everything compiled with -Zsanitizer=address and debug assertions (std ub_checks); distinct_nontrivial = index sequences + (ISA x length x offset) kernel points",
             "samples": [{"kernel": "avx2+fma dot len=33 off=1"}, {"index_sequence": ["Add", "AddDupVec", "SearchBigK", "AddDupId"], "dim": 17, "M": 5, "capacity": 2}],
             "exhaustive": True,
             "kernels": k, "index": ix,
             "tsan_free_running_pass": dict(results.get("tsan", {}), note="complementary detector, NOT exhaustive: 7 free-running threads per scenario (writers incl. tombstone compaction on tiny capacities, searches, point / bulk / filtered reads, snapshots, drains) on HnswBackend (with and without persistence) and TieredEngine with the production parking_lot, compiled with -Zsanitizer=thread and an instrumented std; schedules are whatever the OS produces. It backs the assumption of the lock-granularity schedule explorers (C05/C07/C08/C09/C14/C19) that no shared memory is touched outside a lock"),
         },
         "assumptions": ["AddressSanitizer + std ub_checks are the oracle: an out-of-bounds, use-after-free or violated unsafe precondition aborts the run; reads of initialised-but-wrong in-bounds memory are not detected",
-                        "cancellation 'at any point' is reduced to a pre-cancelled flag; concurrent readers run free (not exhaustive) — under ASan in the index part and under ThreadSanitizer in the separate free-running pass",
+                        "cancellation points are the engine's own checks (cancellation_requested); the hook raises the flag AT a check, which is where another thread's store would become visible; concurrent readers run free (not exhaustive) — under ASan in the index part and under ThreadSanitizer in the separate free-running pass",
                         "the engine's own SIMD dispatch picks the best ISA of this CPU; the other ISAs are reached through the appended child module of simd.rs"],
         "wall_s": time.time() - t0, "violations": nviol,
     }
